@@ -70,6 +70,8 @@ theorem step_abs {s : VariableSet} (h : Norm s) (op : Op) :
         subst h2
         cases r1 <;> exact ⟨h1, rfl, h3⟩
   | setParams ps => exact ⟨(setParams_abs h ps).1, rfl, (setParams_abs h ps).2⟩
+  | quirk n sc q =>
+    exact getOrNew_modify_abs h n sc (·.setQuirk q) (fun _ => .done) (fun _ => .done) (fun _ _ => rfl)
 
 theorem run_abs {s : VariableSet} (h : Norm s) (ops : List Op) : True ∧ Norm (s.run ops) := by
   refine ⟨trivial, ?_⟩
